@@ -75,6 +75,11 @@ def make_judges(ctx):
             p = si.post or si.pre
             if p is None:
                 d = si.init_args or {}
+                if (set(d) - {'val', 'signed', 'n_word', 'n_frac', 'n_int', 'like', 'dtype', 'raw', 'rounding', 'overflow', 'scale', 'bias'}) \
+                        or d.get('rounding', 'trunc') not in G.ROUNDINGS or d.get('overflow', 'saturate') not in G.OVERFLOWS \
+                        or not isinstance(d.get('signed', True), (bool, int, type(None))):
+                    ctx.skip('store:constructor given further (possibly invalid) settings raised - their rejection is C20\'s subject')
+                    return
                 if isinstance(d.get('n_word'), int) and isinstance(d.get('n_frac'), int) and 1 <= d['n_word'] <= 52 \
                         and -8 <= d['n_frac'] <= d['n_word'] + 8 and d.get('like') is None and d.get('dtype') is None \
                         and 'scale' not in d and 'bias' not in d \
